@@ -8,7 +8,7 @@ from common import Ctx, driver_json, fmt
 import uni_common as U
 
 PROPERTY = "C04"
-LEAN_MODULES = ["Proofs.C04.Uni"]
+LEAN_MODULES = ["Proofs.C04.Uni", "Proofs.C04.UniHelpers"]
 DRIVERS = ["driver"]
 RULE = ("[uni] for every public UniLpMarket operation (add_liquidity, add_liquidity_by_tick, _add_liquidity_by_tick, remove_liquidity, collect_fee, "
         "remove_all_liquidity, swap, buy, sell, even_rebalance, add_liquidity_by_value, transfer_position_in/out) and every rejection cause the "
